@@ -173,3 +173,65 @@ def single_def(body, local):
     if len(nc) == 1:
         return nc[0]
     return None
+
+
+def reach_known_variants(body, start, blocked=(), dead_edges=(), cap=20000):
+    """Blocks reachable from `start` without entering `blocked`, following at each discriminant switch only the edge that agrees
+    with what the path itself established: a local assigned an enum aggregate (`x = Some(..)`, `x = None`) on the way has a known
+    variant, carried through plain copies / moves, and a later `switch discriminant(x)` on the same path cannot take another arm.
+    (Path-sensitive only in this one respect; everything else is plain reachability. Gives up - plain reachability - beyond `cap`
+    states.)"""
+    from .dataflow import root_local
+    blocked = set(blocked)
+    dead_edges = set(dead_edges)
+    if start in blocked:
+        return set()
+    seen_states = set()
+    reached = set()
+    stack = [(start, frozenset())]
+    while stack:
+        bb, env = stack.pop()
+        if (bb, env) in seen_states:
+            continue
+        seen_states.add((bb, env))
+        if len(seen_states) > cap:
+            c = cfg_of(body)
+            return c._reach_from(start, blocked, dead_edges)
+        reached.add(bb)
+        e = dict(env)
+        bl = body.blocks[bb]
+        for st in bl.stmts:
+            if st[0] != 'a':
+                continue
+            dst, rv = st[1], st[2]
+            if dst.proj:
+                e.pop(dst.local, None) if not any(p[0] in ('f', 't') for p in dst.proj) else None
+                continue
+            if rv[0] == 'agg' and rv[1][0] == 'adt':
+                e[dst.local] = rv[1][2]
+            elif rv[0] == 'use' and rv[1][0] in ('c', 'm') and not rv[1][1].proj and rv[1][1].local in e:
+                e[dst.local] = e[rv[1][1].local]
+            else:
+                e.pop(dst.local, None)
+        t = bl.term
+        if t[0] == 'call' and t[4] is not None and not t[4].proj:
+            e.pop(t[4].local, None)
+        nxt = succs(body, bb)
+        if t[0] == 'switch' and t[1][0] in ('c', 'm'):
+            sd = single_def(body, t[1][1].local)
+            if sd and sd[1] != 'term' and sd[2][0] == 'disc':
+                pl = sd[2][1]
+                key = pl.local if not any(p[0] in ('f', 't', 'v') for p in pl.proj) else None
+                if key is not None and key not in e:
+                    r, path = root_local(body, key)
+                    key = r if not path else None
+                if key is not None and key in e:
+                    v = e[key]
+                    tg = [x[1] for x in t[2] if x[0] == v]
+                    nxt = tg if tg else [t[3]]
+        fe = frozenset(e.items())
+        for s in nxt:
+            if s is None or s in blocked or (bb, s) in dead_edges or body.blocks[s].cleanup:
+                continue
+            stack.append((s, fe))
+    return reached
